@@ -62,6 +62,52 @@ type Common struct {
 	Shallow bool       `json:"shallow"` // parties 1.. use ShallowCopy of party 0's protocol instead of their own instance
 	Pre     []PreCall  `json:"pre,omitempty"`
 	MsgSeed uint64     `json:"msgSeed"`
+	// Receiver: history of the share objects handed to GenShare / GenShareRoundOne / Two as output:
+	// 0 freshly allocated, 1 pre-filled with arbitrary residues, 2 already used as the output of an earlier share
+	// generation (other CRP / Galois element), as a party that keeps one buffer per protocol does.
+	Receiver int `json:"receiver,omitempty"`
+	// DirtyOut: the fresh outputs of AggregateShares and the key containers given to the finalisers are pre-filled.
+	DirtyOut bool `json:"dirtyOut,omitempty"`
+}
+
+// junk returns the generator of the arbitrary earlier contents of a case.
+func (c Common) junk() *h.SplitMix { return h.NewSplitMix(c.MsgSeed ^ 0x6a756e6b) }
+
+func (c Common) receiverClass() string {
+	return "receiver=" + []string{"fresh", "prefilled", "earlier-share"}[c.Receiver%3] + fmt.Sprintf(",outputs-prefilled=%v", c.DirtyOut)
+}
+
+// dirtyPoly overwrites every limb of p with arbitrary reduced residues.
+func dirtyPoly(p ring.Poly, ms []uint64, rng *h.SplitMix) {
+	for i := range p.Coeffs {
+		for j := range p.Coeffs[i] {
+			p.Coeffs[i][j] = rng.Uint64() % ms[i]
+		}
+	}
+}
+
+func dirtyQP(p ringqp.Poly, s h.RLWESpec, rng *h.SplitMix) {
+	dirtyPoly(p.Q, s.Q, rng)
+	dirtyPoly(p.P, s.P, rng)
+}
+
+func dirtyGadget(g *rlwe.GadgetCiphertext, s h.RLWESpec, rng *h.SplitMix) {
+	for i := range g.Value {
+		for j := range g.Value[i] {
+			for k := range g.Value[i][j] {
+				dirtyQP(g.Value[i][j][k], s, rng)
+			}
+		}
+	}
+}
+
+// junkCRS is a second reference string, used only to give receivers an earlier life.
+func junkCRS(c Common) *sampling.KeyedPRNG {
+	p, err := crsPRNG(c.CRS ^ 0x5555aaaa5555aaaa)
+	if err != nil {
+		panic(err)
+	}
+	return p
 }
 
 // ---------------------------------------------------------------------------------------------------------------
@@ -208,6 +254,10 @@ func genCommon(t *rapid.T) Common {
 	c.Shallow = rapid.Bool().Draw(t, "shallow")
 	c.Pre = genPre(t, c.Params)
 	c.MsgSeed = rapid.Uint64().Draw(t, "msgSeed")
+	if r := rapid.IntRange(0, 3).Draw(t, "receiver"); r >= 2 {
+		c.Receiver = r - 1
+	}
+	c.DirtyOut = rapid.Bool().Draw(t, "dirtyOut")
 	return c
 }
 
